@@ -79,7 +79,9 @@ def func_item(draw, depth=0, method=False, used=None):
     vararg = draw(st.sampled_from((None, None, None, "args", "rest")))
     kwarg = draw(st.sampled_from((None, None, None, "kwargs", "extra")))
     style = draw(st.sampled_from(("rest", "rest", "google", "numpydoc", "none")))
-    types_in = draw(st.sampled_from(("doc", "sig", "doc", "none")))
+    # "both": types in the signature and in the docstring; "differ": the two disagree (the header's
+    # annotation is then *replaced*, not added or removed — a separate path of the write-back)
+    types_in = draw(st.sampled_from(("doc", "sig", "doc", "none", "both", "differ")))
     ref = iface["params"][0]["name"] if iface["params"] else "None"
     body = [s.format(a=ref) for s in draw(st.lists(st.sampled_from(BODY_STMTS), min_size=0, max_size=3))]
     if iface["params"] and draw(st.integers(0, 5)) == 5:
@@ -249,10 +251,13 @@ def unshape(text, shape):
 
 
 # -------------------------------------------------------------------------------------- renderer
+_OTHER_TYPE = {"int": "float", "float": "int", "str": "int", "bool": "int"}
+
+
 def render_func(item, indent=""):
     iface = item["iface"]
     inner = indent + "    "
-    annotate = item["types_in"] == "sig"
+    annotate = item["types_in"] in ("sig", "both", "differ")
     sig = gen.render_signature(iface, annotate=annotate, first=item.get("first"), star_args=item.get("vararg"),
                                kwonly=item.get("kwonly", ()), star_kwargs=item.get("kwarg"))
     ret = iface.get("returns")
@@ -288,8 +293,13 @@ def render_func(item, indent=""):
     elif item["style"] != "none":
         documented = dict(iface)
         documented["params"] = list(iface["params"]) + list(item.get("kwonly", ()))
+        if item["types_in"] == "differ":
+            documented["params"] = [dict(p_, typ=_OTHER_TYPE.get(p_.get("typ"), "str")) if p_.get("typ") else p_
+                                    for p_ in documented["params"]]
+            if ret and ret.get("typ"):
+                documented["returns"] = dict(ret, typ=_OTHER_TYPE.get(ret["typ"], "str"))
         lines.append(gen.render_docstring(documented, item["style"], indent=inner,
-                                          with_types=item["types_in"] == "doc"))
+                                          with_types=item["types_in"] in ("doc", "both", "differ")))
     if item.get("doc_only") and item["style"] != "none" and not item.get("nested"):
         return lines   # a stub: the docstring is the whole body
     for s in item.get("body", ()):
